@@ -800,6 +800,8 @@ def simplify_field(t, name, adt):
             except ValueError:
                 i = None
             # closure fields are resolved by capture index in Origin.project via name -> handled by caller
+    if name.isdigit():
+        adt = None   # positional fields (newtype ids, Option/Result payloads, tuples): owner is irrelevant
     return ('field', t, name, adt)
 
 
